@@ -70,3 +70,6 @@ include!(concat!(env!("OUT_DIR"), "/model_gen.rs"));
 pub fn op_model(name: &str) -> Option<&'static OpModel> {
     OP_MODELS.iter().find(|m| m.name == name)
 }
+
+// G4 — error code -> HTTP status, from data/s3_error_codes.json
+include!(concat!(env!("OUT_DIR"), "/errors_gen.rs"));
